@@ -69,6 +69,7 @@ def crc32_collision(ctx) -> None:
 
 def run(shard, ctx):
     if shard.get("kind") == "threads":
+        dlms_common.digest_twins(ID, "kamstrup", ctx)
         if shard.get("rounds"):
             crc32_collision(ctx)
         per_meter = [lambda r: dlms_gen.kamstrup_case(r, ct=True), lambda r: dlms_gen.kamstrup_case(r, ct=False)]
